@@ -16,6 +16,25 @@
         of a position is its round-half-even, as in Model/Tracker.v);
       - the IBM ages the particle and kills it at age >= lifetime (lifetime < 0: never).
 
+    The ADVECTION SCHEME of the tracker is part of the set-up ([s_adv]: 0 = EF, 1 = RK2, 2 = RK4; tracker.py EF /
+    RK2 / RK4).  The velocity U of the move is
+      EF   the velocity felt at the particle's position x at the step itself (fractional_step = 0);
+      RK2  U1 felt at (x, 0); X1 = x + 1/2 U1 dt/dx; U = the velocity felt at (X1, fractional_step = 1/2);
+      RK4  U1 at (x, 0); U2 at (x + 1/2 U1 dt/dx, 1/2); U3 at (x + 1/2 U2 dt/dx, 1/2); U4 at (x + U3 dt/dx, 1);
+           U = (U1 + 2 U2 + 2 U3 + U4) / 6,
+    where the flow at fractional step f is Forcing.velocity(..., fractional_step = f) of the forcing state in
+    force at the step ([velocity_frac] of Model/ForcingTime.v: u + f dU, plain u when f < 1/1000, negated when
+    the clock runs backwards) and "felt" is the masked-face interpolation above at the STAGE position, with the
+    factor of the particle's own depth class at every stage (the real code caches the level and its weight at
+    Forcing.update, at the start position).  The kill / land-cancel rules act on the candidate x + U dt/dx.
+    NOT MODELLED: the clip of the stage positions into [xmin + 0.01, xmax - 0.01] = [lo - 49/100, hi + 49/100].
+    Instead well-formedness demands [no_clip]: for RK2 every |u| * |factor| * |dt/dx| over all frames of all
+    files and all class factors (and the factor 1 of an unknown class) is at most 98/100, for RK4 at most
+    49/100 (nothing for EF; any other scheme number is refused).  Every stage displacement is then at most
+    49/100 of a cell, so no stage position of a particle inside (lo, hi) leaves the clip box and the clip is the
+    identity ([stages_in_box] in Proofs/SetupProofs.v).  [no_clip] thus EXCLUDES the set-ups whose flow is fast
+    enough (about half a cell per step for RK4, one cell for RK2) for the clip to act near the open boundary.
+
     The releaser works in either mode of release.py: DISCRETE ([s_cont] = None: the rows of the table at their
     times) or CONTINUOUS ([s_cont] = Some frequency: discretize() — the row set of the latest file time at
     every tick of the frequency grid anchored at the first file time before the stop).
@@ -23,10 +42,11 @@
     [m_run] is "what the code does" for the set-up; [sp_run] is the SPECIFICATION run: particles enter at
     the steps of their release times (C04's [released_at]; continuous mode: at every tick inside the window,
     C04's [cont_released_at]), feel the linear interpolation of the frames
-    (C03's [lerp_spec]) and the latest scalar frame (C03's [latest_spec]).  Proofs/SetupProofs.v proves that
+    (C03's [lerp_spec]) — at step n, stage fraction f: at the point n + f of the step axis — and the latest
+    scalar frame (C03's [latest_spec]).  Proofs/SetupProofs.v proves that
     the two agree record for record for every well-formed set-up, and derives the closed time-shift (C14)
     and time-mirror (C10) theorems about file layouts, release tables and clocks. *)
-From Coq Require Import ZArith QArith List Bool.
+From Coq Require Import ZArith QArith Qabs List Bool.
 From Ladim Require Import Base.Num Model.Time Model.ForcingTime Model.Release Model.Sim.
 Import ListNotations.
 Open Scope Z_scope.
@@ -43,7 +63,8 @@ Record setup := {
   s_lo : Q; s_hi : Q;                (* open interval of valid positions *)
   s_life : Z;                        (* IBM lifetime in steps, negative = none *)
   s_cfac : list Q;                   (* velocity factor of each depth class *)
-  s_land : list Z                    (* the x-cells that are land along the particle line *)
+  s_land : list Z;                   (* the x-cells that are land along the particle line *)
+  s_adv : Z                          (* advection scheme: 0 = EF, 1 = RK2, 2 = RK4 *)
 }.
 
 Definition row_part (r : row) : Z * pv :=
@@ -67,12 +88,28 @@ Definition felt (s : setup) (U x : Q) : Q :=
   let k0 := qfloor (x - (1 # 2)) in
   let p := (x - (1 # 2) - inject_Z k0)%Q in
   ((1 - p) * face s U k0 + p * face s U (k0 + 1))%Q.
+(** the advection schemes of tracker.py over a flow [uf] given as a function of the fractional step: the
+    velocity felt by a particle of class c at stage position x and fraction f, RKstep, and the velocity of the
+    move (EF / RK2 / RK4; stage positions NOT clipped, see [no_clip]) *)
+Definition stage (s : setup) (uf : Q -> Q) (c : Z) (f x : Q) : Q := felt s (uf f * cfac s c) x.
+Definition rk_pos (s : setup) (x frac U : Q) : Q := (x + frac * U * s_dtdx s)%Q.
+Definition adv (s : setup) (uf : Q -> Q) (c : Z) (x : Q) : Q :=
+  if s_adv s =? 1 then
+    let U1 := stage s uf c 0 x in
+    stage s uf c (1 # 2) (rk_pos s x (1 # 2) U1)
+  else if s_adv s =? 2 then
+    let U1 := stage s uf c 0 x in
+    let U2 := stage s uf c (1 # 2) (rk_pos s x (1 # 2) U1) in
+    let U3 := stage s uf c (1 # 2) (rk_pos s x (1 # 2) U2) in
+    let U4 := stage s uf c 1 (rk_pos s x 1 U3) in
+    ((U1 + 2 * U2 + 2 * U3 + U4) / 6)%Q
+  else stage s uf c 0 x.
 (** Tracker.update: the candidate out of the valid interval kills (value unchanged); the candidate in a land
     cell cancels the move (value unchanged, still alive); otherwise the particle moves to the candidate.
     The candidate is kept as a REDUCED fraction ([Qred], the same rational): the position enters the felt flow
     through the interpolation weight, so unreduced denominators would be cubed at every step *)
-Definition move (s : setup) (u : Q) (v : pv) (c : Z) : pv * bool :=
-  let cand := Qred (vx v + felt s (u * cfac s c) (vx v) * s_dtdx s)%Q in
+Definition move (s : setup) (uf : Q -> Q) (v : pv) (c : Z) : pv * bool :=
+  let cand := Qred (vx v + adv s uf c (vx v) * s_dtdx s)%Q in
   if Qlt_bool (s_lo s) cand && Qlt_bool cand (s_hi s)
   then if is_land s (qround cand) then (v, true)
        else ({| vx := cand; vcls := vcls v; vage := vage v; vtemp := vtemp v |}, true)
@@ -86,8 +123,10 @@ Definition s_due (s : setup) (n : Z) : bool := n mod s_period s =? 0.
 (** * the machines *)
 Definition m_fstate (s : setup) (n : Z) : option fstate :=
   state_at (mk_tables (s_raw s)) (s_disk s) true n.
-Definition m_u (s : setup) (n : Z) : Q :=
-  match m_fstate s n with Some st => particle_u (rev (s_tk s)) st | None => 0 end.
+(** Forcing.velocity(..., fractional_step = f) of the state in force at step n; [m_u] = the flow at the step itself *)
+Definition m_uf (s : setup) (n : Z) (f : Q) : Q :=
+  match m_fstate s n with Some st => velocity_frac (rev (s_tk s)) st f | None => 0 end.
+Definition m_u (s : setup) (n : Z) : Q := m_uf s n 0.
 Definition m_temp (s : setup) (n : Z) : Q :=
   match m_fstate s n with Some st => scal st | None => 0 end.
 Definition m_rows (s : setup) (n : Z) : list row :=
@@ -101,16 +140,17 @@ Definition m_rows (s : setup) (n : Z) : list row :=
   end.
 Definition m_release (s : setup) (n : Z) : list (Z * pv) := map row_part (m_rows s n).
 Definition m_force (s : setup) (n : Z) (v : pv) : pv := with_temp v (m_temp s n).
-Definition m_track (s : setup) (n : Z) (v : pv) (c : Z) : pv * bool := move s (m_u s n) v c.
+Definition m_track (s : setup) (n : Z) (v : pv) (c : Z) : pv * bool := move s (m_uf s n) v c.
 Definition m_run (s : setup) : sim pv Z :=
   cold_run pv Z (m_release s) (m_force s) s_cache (m_track s) (ibm s) (s_due s) (s_nsteps s).
 
 (** * the specification *)
-Definition sp_u (s : setup) (n : Z) : Q :=
-  match lerp_spec (upts (s_raw s) (s_disk s)) (inject_Z n) with
+Definition sp_uf (s : setup) (n : Z) (f : Q) : Q :=
+  match lerp_spec (upts (s_raw s) (s_disk s)) (inject_Z n + f) with
   | Some v => if rev (s_tk s) then (- v)%Q else v
   | None => 0
   end.
+Definition sp_u (s : setup) (n : Z) : Q := sp_uf s n 0.
 Definition sp_temp (s : setup) (n : Z) : Q :=
   match latest_spec (spts (s_raw s) (s_disk s)) n with Some v => v | None => 0 end.
 Definition sp_rows (s : setup) (n : Z) : list row :=
@@ -120,7 +160,7 @@ Definition sp_rows (s : setup) (n : Z) : list row :=
   end.
 Definition sp_release (s : setup) (n : Z) : list (Z * pv) := map row_part (sp_rows s n).
 Definition sp_force (s : setup) (n : Z) (v : pv) : pv := with_temp v (sp_temp s n).
-Definition sp_track (s : setup) (n : Z) (v : pv) (c : Z) : pv * bool := move s (sp_u s n) v c.
+Definition sp_track (s : setup) (n : Z) (v : pv) (c : Z) : pv * bool := move s (sp_uf s n) v c.
 Definition sp_run (s : setup) : sim pv Z :=
   cold_run pv Z (sp_release s) (sp_force s) s_cache (sp_track s) (ibm s) (s_due s) (s_nsteps s).
 
@@ -129,7 +169,17 @@ Definition sp_run (s : setup) : sim pv Z :=
     frequency, a multiple of dt; the part of the table before the stop time in simulation order, its first
     time on the model time grid, all its times on the frequency grid anchored at the first); the releaser
     does not refuse the run; forcing frames on the time grid at pairwise different times, one at or before
-    the start and one after the last step *)
+    the start and one after the last step; a known advection scheme whose stage positions are never clipped
+    ([no_clip], see the header) *)
+Definition disp_le (s : setup) (b : Q) : bool :=
+  forallb (fun r : record =>
+             forallb (fun cf => Qle_bool (Qabs (snd (fst r)) * Qabs cf * Qabs (s_dtdx s)) b) (1%Q :: s_cfac s))
+          (concat (s_files s)).
+Definition no_clip (s : setup) : bool :=
+  if s_adv s =? 0 then true
+  else if s_adv s =? 1 then disp_le s (98 # 100)
+  else if s_adv s =? 2 then disp_le s (49 # 100)
+  else false.
 Definition started (s : setup) : bool :=
   match rel_init (s_tk s) (s_cont s) false (s_tab s) with RelOk _ _ _ => true | RelExit => false end.
 Definition tab_ok (s : setup) : bool :=
@@ -140,7 +190,7 @@ Definition tab_ok (s : setup) : bool :=
 Definition setup_ok (s : setup) : bool :=
   (0 <? dt (s_tk s)) && tab_ok s && started s &&
   ForcingTime.on_grid (s_tk s) (s_files s) && nodupb (layout_times (s_files s)) &&
-  covers (s_raw s) (s_nsteps s - 1).
+  covers (s_raw s) (s_nsteps s - 1) && no_clip s.
 
 (** values are compared up to [==] on the rationals *)
 Definition pv_eq (v w : pv) : Prop :=
@@ -154,7 +204,8 @@ Definition shift_tk' (t : tk) (d : Z) : tk :=
 Definition shift_setup (s : setup) (d : Z) : setup :=
   {| s_tk := shift_tk' (s_tk s) d; s_files := map (map (shift_rec d)) (s_files s);
      s_tab := map (shift_row d) (s_tab s); s_cont := s_cont s; s_period := s_period s; s_dtdx := s_dtdx s;
-     s_lo := s_lo s; s_hi := s_hi s; s_life := s_life s; s_cfac := s_cfac s; s_land := s_land s |}.
+     s_lo := s_lo s; s_hi := s_hi s; s_life := s_life s; s_cfac := s_cfac s; s_land := s_land s;
+     s_adv := s_adv s |}.
 
 (** the mirror image of a reversed set-up: a forward clock over the axis x |-> 2*start - x, every forcing
     frame and release row at its mirror time, velocities sign-flipped, scalars unchanged *)
@@ -166,7 +217,8 @@ Definition mirror_row' (t : tk) (r : row) : row := {| rt := mirror_x t (rt r); r
 Definition mirror_setup (s : setup) : setup :=
   {| s_tk := mirror_tk' (s_tk s); s_files := map (map (mirror_rec (s_tk s))) (s_files s);
      s_tab := map (mirror_row' (s_tk s)) (s_tab s); s_cont := s_cont s; s_period := s_period s; s_dtdx := s_dtdx s;
-     s_lo := s_lo s; s_hi := s_hi s; s_life := s_life s; s_cfac := s_cfac s; s_land := s_land s |}.
+     s_lo := s_lo s; s_hi := s_hi s; s_life := s_life s; s_cfac := s_cfac s; s_land := s_land s;
+     s_adv := s_adv s |}.
 
 (** * a concrete reversed set-up used by the non-vacuity examples: two forcing files, frames 1200 s apart on a
     600 s clock, a release table with a multiplicity and a row at the stop time (never released) *)
@@ -177,7 +229,7 @@ Definition ex_setup : setup :=
      s_tab := [ {| rt := 3600; rmult := 1; rvals := [0; 5120; 0] |}; {| rt := 2400; rmult := 2; rvals := [1; 6144; 1] |};
                 {| rt := 0; rmult := 1; rvals := [2; 7168; 0] |} ];
      s_cont := None; s_period := 2; s_dtdx := 1 # 16; s_lo := 1; s_hi := 18; s_life := 5; s_cfac := [1; 1 # 2]%Q;
-     s_land := [] |}.
+     s_land := []; s_adv := 0 |}.
 (** a concrete forward set-up with CONTINUOUS release every 1200 s on a 600 s clock: the file times 0 (one
     row) and 2400 (two rows, one with multiplicity 2) lie on the frequency grid anchored at 0; the row at the
     stop time is never used *)
@@ -187,7 +239,7 @@ Definition ex_setup_cont : setup :=
      s_tab := [ {| rt := 0; rmult := 1; rvals := [0; 5120; 0] |}; {| rt := 2400; rmult := 2; rvals := [1; 6144; 1] |};
                 {| rt := 2400; rmult := 1; rvals := [2; 4096; 0] |}; {| rt := 3600; rmult := 1; rvals := [3; 7168; 0] |} ];
      s_cont := Some 1200; s_period := 2; s_dtdx := 1 # 16; s_lo := 1; s_hi := 18; s_life := 5; s_cfac := [1; 1 # 2]%Q;
-     s_land := [] |}.
+     s_land := []; s_adv := 0 |}.
 (** [ex_setup] with LAND in cell 4, a coarser grid (dt/dx = 1/8), output at every step and no lifetime: the
     particle released at x = 5 sits half-way between the masked face at 4 1/2 and the open face at 5 1/2 and
     feels half the flow (reversed clock: towards lower x); its first two moves (candidates 4 1/16 and 4 5/16, in
@@ -195,7 +247,31 @@ Definition ex_setup_cont : setup :=
     masked face; the particles released at x = 6 lie between two open faces and feel the whole flow *)
 Definition ex_setup_land : setup :=
   {| s_tk := s_tk ex_setup; s_files := s_files ex_setup; s_tab := s_tab ex_setup; s_cont := None; s_period := 1;
-     s_dtdx := 1 # 8; s_lo := 1; s_hi := 18; s_life := -1; s_cfac := [1; 1 # 2]%Q; s_land := [4] |}.
+     s_dtdx := 1 # 8; s_lo := 1; s_hi := 18; s_life := -1; s_cfac := [1; 1 # 2]%Q; s_land := [4]; s_adv := 0 |}.
+(** the same set-up under another advection scheme *)
+Definition with_adv (s : setup) (a : Z) : setup :=
+  {| s_tk := s_tk s; s_files := s_files s; s_tab := s_tab s; s_cont := s_cont s; s_period := s_period s;
+     s_dtdx := s_dtdx s; s_lo := s_lo s; s_hi := s_hi s; s_life := s_life s; s_cfac := s_cfac s; s_land := s_land s;
+     s_adv := a |}.
+(** [ex_setup] (reversed clock, flow 15, 11, 7, 5, 3, 2 at the six steps: the fractional-step sampling matters)
+    under RK2 — the largest displacement is 15/16 of a cell per step, within [no_clip] for RK2 —, and on a grid
+    twice as coarse (dt/dx = 1/32, at most 15/32 of a cell per step) under RK4; [ex_setup_land] on the finer grid
+    dt/dx = 1/16 under RK2: the stage position of the particle next to the masked face feels another flow than
+    the particle itself *)
+Definition ex_setup_rk2 : setup := with_adv ex_setup 1.
+Definition ex_setup_rk4_base : setup :=
+  {| s_tk := s_tk ex_setup; s_files := s_files ex_setup; s_tab := s_tab ex_setup; s_cont := None; s_period := 2;
+     s_dtdx := 1 # 32; s_lo := 1; s_hi := 18; s_life := 5; s_cfac := [1; 1 # 2]%Q; s_land := []; s_adv := 0 |}.
+Definition ex_setup_rk4 : setup := with_adv ex_setup_rk4_base 2.
+Definition ex_setup_land_rk2 : setup :=
+  {| s_tk := s_tk ex_setup; s_files := s_files ex_setup; s_tab := s_tab ex_setup; s_cont := None; s_period := 1;
+     s_dtdx := 1 # 16; s_lo := 1; s_hi := 18; s_life := -1; s_cfac := [1; 1 # 2]%Q; s_land := [4]; s_adv := 1 |}.
+(** the same under RK4 on the grid dt/dx = 1/32: next to the masked face the four stage velocities differ with the
+    stage positions, the run differs from the RK2 run of the same set-up (without land RK4 and RK2 coincide: the
+    flow is uniform in space and linear in time within a step, so both use its mid-step value) *)
+Definition ex_setup_land_rk4 : setup :=
+  {| s_tk := s_tk ex_setup; s_files := s_files ex_setup; s_tab := s_tab ex_setup; s_cont := None; s_period := 1;
+     s_dtdx := 1 # 32; s_lo := 1; s_hi := 18; s_life := -1; s_cfac := [1; 1 # 2]%Q; s_land := [4]; s_adv := 2 |}.
 (** records of a run in readable form: (step, [(pid, tag, x, age, temp)]) with reduced fractions *)
 Definition show_run (r : sim pv Z) : list (Z * list (Z * Z * Q * Z * Q)) :=
   map (fun x : rec pv => (rstep x, map (fun y : Z * Z * pv => let '(pid, tg, v) := y in
